@@ -254,7 +254,7 @@ pub fn d_client_hello(rng: &mut Rng, budget: usize) -> Item {
         _ => rng.small_len(255),
     };
     Item::new("d_client_hello")
-        .int("ver", *rng.pick(&[0xfeffu16, 0xfefd, 0xfefd, 0x0303]) as u64)
+        .int("ver", *rng.pick(&[0xfeffu16, 0xfefd, 0xfefd, 0x0100]) as u64)
         .bytes("random", &rng.bytes(32))
         .opt_bytes("sid", sid(rng).as_deref())
         .bytes("cookie", &rng.bytes(cookie_len))
